@@ -102,6 +102,12 @@ def make_jobs(r: random.Random, n: int, deep: bool = False):
         ["- loose\n\n- list\n\n  > quote in item\n\n1. tight\n2. list\n", rand_opts(r, force={"width": 30})],
         ["`code span` and [a link](http://u.v) and {% tag %} and <b>html</b> text to wrap around the width of thirty.\n", rand_opts(r, force={"width": 30})],
     ]
+    # an opener that is never closed next to a code span, then (in another document) closed tags of every kind next to one
+    special.append(["`a` b {{ never closed and {% neither and {# nor this and <!-- that one, d\n", rand_opts(r, force={"width": 88, "plaintext": False})])
+    special.append(["x `y` {{ __version__ }} and {# _not_ emphasis #} and {% if a.__b__ %} and <!-- _c_ --> `z`\n", rand_opts(r, force={"width": 88, "plaintext": False})])
+    # a destination with '&' + a legacy entity name without ';' (&reg, &not, &amp): several links to one definition
+    ent = "http://x.example/?lang=en&region=eu&notify=1&copy=2"
+    special.append([f"[r]: {ent}\n\nSee [one]({ent}) and [two]({ent}) and [three]({ent}) and [four]({ent}) here.\n", rand_opts(r, force={"width": 88, "plaintext": False})])
     # two documents with more than 16 reference definitions each, the same destinations under different labels
     for lab in ("alpha", "beta"):
         special.append(["".join(f"See [site {i}][{lab}-{i}] and [{lab}-{i}] too.\n\n" for i in range(20)) +
@@ -306,8 +312,22 @@ class C13(Prop):
             yield {"kind": "preempt", "seed": r.getrandbits(40), "max_points": 60 if tier == "quick" else 400}
         if shard % 2 == 0 or tier != "quick":
             yield {"kind": "preempt", "seed": r.getrandbits(40), "max_points": 40 if tier == "quick" else 400, "typography": True}
+        if shard % 4 == 3 or tier != "quick":
+            yield {"kind": "preempt", "seed": r.getrandbits(40), "max_points": 60 if tier == "quick" else 400, "links": True}
+        if shard % 2 == 0 or tier != "quick":
+            # a document nested beyond the recursion limit among the concurrent jobs (process-wide limits saved and restored per call)
+            yield {"kind": "schedule", "seed": r.getrandbits(40), "threads": 2, "jobs": 3, "schedules": 8 if tier == "quick" else 16, "p": r.choice([0.01, 0.02, 0.05]), "deep": True}
+
+    def check(self, case, col: Collector):
+        # every case starts from the interpreter state the worker started with: a process-wide limit that an earlier case left
+        # changed would hide what the next one is looking for (counted, so that the evidence shows it happened)
+        if sys.getrecursionlimit() != self.base_recursion_limit:
+            col.count("recursion_limit_found_changed_by_an_earlier_case")
+            sys.setrecursionlimit(self.base_recursion_limit)
+        getattr(self, "_check_" + case["kind"])(case, col)
 
     def setup_worker(self, col, tier):
+        self.base_recursion_limit = sys.getrecursionlimit()
         self.mon = getattr(sys, "monitoring", None)
         if self.mon is None:
             col.inconcl("sys.monitoring unavailable: the deterministic scheduler cannot run")
@@ -342,9 +362,6 @@ class C13(Prop):
                     setattr(mod, attr, CoopLock(val, self))
                     n += 1
         col.count("program_locks_made_cooperative", n)
-
-    def check(self, case, col: Collector):
-        getattr(self, "_check_" + case["kind"])(case, col)
 
     def _check_history(self, case, col):
         r = random.Random(case["seed"])
@@ -444,6 +461,10 @@ class C13(Prop):
         pool = make_jobs(r, K * J)
         r.shuffle(pool)
         jobs = [pool[i * J:(i + 1) * J] for i in range(K)]
+        if case.get("deep"):
+            deep_doc = ["".join("  " * i + "- x\n" for i in range(300)), rand_opts(r, force={"width": 88, "plaintext": False})]
+            jobs[1][1] = deep_doc
+            jobs[0][2] = [deep_doc[0], dict(deep_doc[1])]
         # threads share some documents and options (same cache keys), others differ
         for i in range(1, K):
             jobs[i][0] = jobs[0][0]
@@ -492,6 +513,14 @@ class C13(Prop):
         a = r.choice(rich)
         b = r.choice([j for j in rich if j is not a] or pool)
         b = [b[0], dict(a[1])] if r.random() < 0.5 else b  # same options half of the time (shared cache keys)
+        if case.get("links"):
+            # several links to one reference definition whose destination holds '&' + legacy entity names; the other call renders
+            # links too (a renderer that consults process-wide state between two links of one call)
+            ent = "http://x.example/?lang=en&region=eu&notify=1&copy=2"
+            ta = f"[r]: {ent}\n\nSee [one]({ent}) and [two]({ent}) and [three]({ent}) and [four]({ent}) here.\n"
+            tb = "[q]: http://y.example/a?b=1&c=2\n\nA [link](http://y.example/a?b=1&c=2) and <http://z.example/?x=1&y=2> and &amp; &copy; text.\n"
+            oo = rand_opts(r, widths=[30, 88], force={"plaintext": False})
+            a, b = [ta, oo], [tb, dict(oo)]
         if case.get("typography"):
             # both calls rewrite text (smart quotes, ellipses, cleanups): documents with dot runs and quotes in prose AND inside
             # tags / comments, at different places in the two documents
@@ -517,6 +546,8 @@ class C13(Prop):
         run(None, rec)
         names = sorted(rec)
         r.shuffle(names)
+        if case.get("links"):
+            names.sort(key=lambda q: not any(k in q.lower() for k in ("link", "ref", "url", "dest", "exit", "enter")))
         if case.get("typography"):
             # the text-rewriting functions first (whatever they are called), then everything else
             names.sort(key=lambda q: not any(k in q.lower() for k in ("ellips", "quote", "replace", "rewrite", "smart", "cleanup", "unbold", "transform")))
